@@ -185,7 +185,8 @@ def reason (status : Nat) : String :=
 
 /-- `write_status_line` + reason -/
 def statusLine (v : Version) (status : Nat) : Bytes :=
-  str (match v with | .h11 => "HTTP/1.1 " | .h10 => "HTTP/1.0 ") ++
+  -- "HTTP/1." as explicit bytes (keeps the head of the list reducible for `decide`)
+  ([72, 84, 84, 80, 47, 49, 46, (match v with | .h11 => 49 | .h10 => 48), 32] : Bytes) ++
     [digitByte (status / 100), digitByte (status / 10), digitByte status, 32] ++ str (reason status)
 
 def lenLine : LenHdr → List Bytes
